@@ -243,6 +243,38 @@ pub fn exec(case: &Case) -> String {
             put(&mut o, "ismul", || format!("{}", x.is_multiple_of(&y)));
             put(&mut o, "ucheckedsub", || format!("{:?}", num_traits::CheckedSub::checked_sub(x.magnitude(), y.magnitude()).map(|v| hxu(&v))));
         }
+        "xs.serde" => {
+            #[cfg(feature = "serde")]
+            {
+                let (sa, a) = case.z(0);
+                let x = bi(sa, a);
+                put(&mut o, "ser_i", || feature_ops::ser_text(&x));
+                put(&mut o, "ser_u", || feature_ops::ser_text(x.magnitude()));
+                put(&mut o, "de_u", || feature_ops::de_biguint(&x.magnitude().to_u32_digits(), case.u(1) as usize % 4));
+                put(&mut o, "de_i", || feature_ops::de_bigint(x.sign(), &x.magnitude().to_u32_digits()));
+            }
+            #[cfg(not(feature = "serde"))]
+            o.push_str("feature-off");
+        }
+        "xs.rand" => {
+            #[cfg(feature = "rand")]
+            {
+                use num_bigint::RandBigInt;
+                let prefix = case.b(0);
+                let seed = case.u(1) as u64;
+                let bits = case.u(2) as u64 % 2100;
+                let (sl, lo) = case.z(3);
+                let (sh, hi) = case.z(4);
+                let (l, h) = (bi(sl, lo), bi(sh, hi));
+                put(&mut o, "bits", || hxu(&feature_ops::StreamRng::new(prefix, seed).gen_biguint(bits)));
+                put(&mut o, "ibits", || hx(&feature_ops::StreamRng::new(prefix, seed).gen_bigint(bits)));
+                put(&mut o, "below", || hxu(&feature_ops::StreamRng::new(prefix, seed).gen_biguint_below(h.magnitude())));
+                put(&mut o, "irange", || hx(&feature_ops::StreamRng::new(prefix, seed).gen_bigint_range(&l, &h)));
+                put(&mut o, "urange", || hxu(&feature_ops::StreamRng::new(prefix, seed).gen_biguint_range(l.magnitude(), h.magnitude())));
+            }
+            #[cfg(not(feature = "rand"))]
+            o.push_str("feature-off");
+        }
         other => {
             let _ = write!(o, "unsupported {}", other);
         }
@@ -260,4 +292,160 @@ pub fn field<'a>(outcome: &'a str, key: &str) -> Option<&'a str> {
         }
     }
     None
+}
+
+
+/// operations that exist only with optional features of num-bigint (compared between the flavours that have them)
+#[cfg(any(feature = "serde", feature = "rand"))]
+pub mod feature_ops {
+    #[cfg(feature = "rand")]
+    pub struct StreamRng {
+        prefix: Vec<u8>,
+        pos: usize,
+        state: u64,
+        buf: [u8; 8],
+        buf_pos: usize,
+    }
+    #[cfg(feature = "rand")]
+    impl StreamRng {
+        pub fn new(prefix: &[u8], seed: u64) -> StreamRng {
+            StreamRng { prefix: prefix.to_vec(), pos: 0, state: seed, buf: [0; 8], buf_pos: 8 }
+        }
+        fn byte(&mut self) -> u8 {
+            if self.pos < self.prefix.len() {
+                self.pos += 1;
+                return self.prefix[self.pos - 1];
+            }
+            if self.buf_pos == 8 {
+                self.state = self.state.wrapping_add(0x9E3779B97F4A7C15);
+                let mut z = self.state;
+                z = (z ^ (z >> 30)).wrapping_mul(0xBF58476D1CE4E5B9);
+                z = (z ^ (z >> 27)).wrapping_mul(0x94D049BB133111EB);
+                z ^= z >> 31;
+                self.buf = z.to_le_bytes();
+                self.buf_pos = 0;
+            }
+            self.buf_pos += 1;
+            self.buf[self.buf_pos - 1]
+        }
+    }
+    #[cfg(feature = "rand")]
+    impl rand::RngCore for StreamRng {
+        fn next_u32(&mut self) -> u32 {
+            u32::from_le_bytes([self.byte(), self.byte(), self.byte(), self.byte()])
+        }
+        fn next_u64(&mut self) -> u64 {
+            let lo = self.next_u32() as u64;
+            let hi = self.next_u32() as u64;
+            lo | (hi << 32)
+        }
+        fn fill_bytes(&mut self, dest: &mut [u8]) {
+            for d in dest.iter_mut() {
+                *d = self.byte();
+            }
+        }
+        fn try_fill_bytes(&mut self, dest: &mut [u8]) -> Result<(), rand::Error> {
+            self.fill_bytes(dest);
+            Ok(())
+        }
+    }
+
+    #[cfg(feature = "serde")]
+    mod ser {
+        use serde::ser::{self, Impossible, Serialize, SerializeSeq, SerializeTuple};
+        use std::fmt::{self, Write};
+        #[derive(Debug)]
+        pub struct E(pub String);
+        impl fmt::Display for E {
+            fn fmt(&self, f: &mut fmt::Formatter<'_>) -> fmt::Result {
+                f.write_str(&self.0)
+            }
+        }
+        impl serde::de::StdError for E {}
+        impl ser::Error for E {
+            fn custom<T: fmt::Display>(m: T) -> Self {
+                E(m.to_string())
+            }
+        }
+        /// renders the token stream as text
+        pub struct T;
+        pub struct Seq(String, bool);
+        impl SerializeSeq for Seq {
+            type Ok = String;
+            type Error = E;
+            fn serialize_element<V: ?Sized + Serialize>(&mut self, v: &V) -> Result<(), E> {
+                let t = v.serialize(T)?;
+                let _ = write!(self.0, "{} ", t);
+                Ok(())
+            }
+            fn end(self) -> Result<String, E> {
+                Ok(format!("{}{}", self.0, if self.1 { ")" } else { "]" }))
+            }
+        }
+        impl SerializeTuple for Seq {
+            type Ok = String;
+            type Error = E;
+            fn serialize_element<V: ?Sized + Serialize>(&mut self, v: &V) -> Result<(), E> {
+                SerializeSeq::serialize_element(self, v)
+            }
+            fn end(self) -> Result<String, E> {
+                SerializeSeq::end(self)
+            }
+        }
+        macro_rules! prim {
+            ($($name:ident($t:ty)),*) => {$( fn $name(self, v: $t) -> Result<String, E> { Ok(format!("{}:{:?}", stringify!($name), v)) } )*};
+        }
+        impl ser::Serializer for T {
+            type Ok = String;
+            type Error = E;
+            type SerializeSeq = Seq;
+            type SerializeTuple = Seq;
+            type SerializeTupleStruct = Impossible<String, E>;
+            type SerializeTupleVariant = Impossible<String, E>;
+            type SerializeMap = Impossible<String, E>;
+            type SerializeStruct = Impossible<String, E>;
+            type SerializeStructVariant = Impossible<String, E>;
+            prim!(serialize_bool(bool), serialize_i8(i8), serialize_i16(i16), serialize_i32(i32), serialize_i64(i64), serialize_u8(u8), serialize_u16(u16), serialize_u32(u32), serialize_u64(u64), serialize_f32(f32), serialize_f64(f64), serialize_char(char), serialize_str(&str), serialize_bytes(&[u8]));
+            fn collect_str<V: ?Sized + fmt::Display>(self, v: &V) -> Result<String, E> { Ok(format!("str:{}", v)) }
+            fn serialize_none(self) -> Result<String, E> { Ok("none".into()) }
+            fn serialize_some<V: ?Sized + Serialize>(self, v: &V) -> Result<String, E> { v.serialize(T) }
+            fn serialize_unit(self) -> Result<String, E> { Ok("unit".into()) }
+            fn serialize_unit_struct(self, _n: &'static str) -> Result<String, E> { Ok("unit_struct".into()) }
+            fn serialize_unit_variant(self, _n: &'static str, _i: u32, v: &'static str) -> Result<String, E> { Ok(format!("variant:{}", v)) }
+            fn serialize_newtype_struct<V: ?Sized + Serialize>(self, _n: &'static str, v: &V) -> Result<String, E> { v.serialize(T) }
+            fn serialize_newtype_variant<V: ?Sized + Serialize>(self, _n: &'static str, _i: u32, _v: &'static str, v: &V) -> Result<String, E> { v.serialize(T) }
+            fn serialize_seq(self, len: Option<usize>) -> Result<Seq, E> { Ok(Seq(format!("seq{:?}[", len), false)) }
+            fn serialize_tuple(self, len: usize) -> Result<Seq, E> { Ok(Seq(format!("tuple{}(", len), true)) }
+            fn serialize_tuple_struct(self, _n: &'static str, _l: usize) -> Result<Self::SerializeTupleStruct, E> { Err(E("tuple_struct".into())) }
+            fn serialize_tuple_variant(self, _n: &'static str, _i: u32, _v: &'static str, _l: usize) -> Result<Self::SerializeTupleVariant, E> { Err(E("tuple_variant".into())) }
+            fn serialize_map(self, _l: Option<usize>) -> Result<Self::SerializeMap, E> { Err(E("map".into())) }
+            fn serialize_struct(self, _n: &'static str, _l: usize) -> Result<Self::SerializeStruct, E> { Err(E("struct".into())) }
+            fn serialize_struct_variant(self, _n: &'static str, _i: u32, _v: &'static str, _l: usize) -> Result<Self::SerializeStructVariant, E> { Err(E("struct_variant".into())) }
+        }
+    }
+    #[cfg(feature = "serde")]
+    pub fn ser_text<V: serde::Serialize>(v: &V) -> String {
+        match v.serialize(ser::T) {
+            Ok(s) => s,
+            Err(e) => format!("ERR {}", e),
+        }
+    }
+    #[cfg(feature = "serde")]
+    pub fn de_biguint(words: &[u32], pad: usize) -> String {
+        use serde::de::value::{Error, SeqDeserializer};
+        use serde::Deserialize;
+        let mut w = words.to_vec();
+        w.extend(std::iter::repeat(0).take(pad));
+        match num_bigint::BigUint::deserialize(SeqDeserializer::<_, Error>::new(w.into_iter())) {
+            Ok(v) => format!("{:?}", v.to_u32_digits()),
+            Err(e) => format!("ERR {}", e),
+        }
+    }
+    #[cfg(feature = "serde")]
+    pub fn de_bigint(sign: num_bigint::Sign, words: &[u32]) -> String {
+        // through the value round trip of the (sign, magnitude) pair
+        let v = num_bigint::BigInt::from_slice(sign, words);
+        let text = ser_text(&v);
+        format!("{}|{:?}", text, v.to_u32_digits())
+    }
 }
